@@ -13,7 +13,8 @@ CLAIMS = {
         text="Decides structural necessary conditions, not the behaviour: the (sat, dissat) witness template of every "
              "fragment extracted symbolically from the satisfier equals the specification's canonical template in both "
              "modes; multi/multi_a/sorted templates; has_sig bookkeeping; selection keeps (stack, locks) from one source; "
-             "output-type assembly per descriptor type agrees with the standard and between direct/plan/PSBT paths.",
+             "output-type assembly per descriptor type agrees with the standard and between direct/plan/PSBT paths; every "
+             "satisfaction the choosers return reports locks of the candidate whose stack it carries.",
         note="Trusted: spec/satisfaction.py, spec/outputs.py; rustc THIR; evaluator semantics (fails closed). Signature "
              "validity, script execution and witness optimisation are not decided.",
         tech=STATIC + "symbolic per-variant template extraction from THIR compared with specification tables",
@@ -54,9 +55,10 @@ CLAIMS = {
         text="Decides that the lift table is the specification's abstract semantics evaluated on the right children: "
              "each of the 30 arms of Miniscript::lift is extracted symbolically (children as opaque lifted policies in pop "
              "order) and compared with the oracle up to commutativity; lift_check failure aborts the fold; tr / taptree / "
-             "sh / wsh / pkh / wpkh / bare lifts and Concrete::lift are extracted the same way.",
+             "sh / wsh / pkh / wpkh / bare lifts and Concrete::lift are extracted the same way; normalized(), applied last "
+             "by every lift, keeps the truth table on a bounded family of ~2700 policies.",
         note="Trusted: spec/semantics.py; model of generic tree iterators; rustc THIR. Semantic equivalence over all "
-             "worlds and `normalized()` are not decided here.",
+             "worlds is not decided here.",
         tech=STATIC + "symbolic per-variant extraction of the lift fold from THIR compared with a specification table",
         engine="symx"),
     "C09": dict(
